@@ -870,6 +870,8 @@ inline int sim_main(World& w, int argc, char** argv)
     return r;
   };
   std::set<std::string> props = split(props_s), known = split(known_s);
+  if (!g_crash_dir.empty())
+    g_crash_dir = outdir; // crash records go where this invocation's other work files go
 
   if (mode == "replay") {
     Replay r;
